@@ -251,4 +251,20 @@ the freshly written sum file is rejected. -/
 theorem blank_edged_name_rejected : validate toyH blankName (some (writeSum toyH blankName)) ≠ .ok := by
   decide
 
+/-- **only_migration_files_count**: the written sum and the verdict of `Validate` depend on the directory
+only through its migration files (`files`): entries that are not migration files — the sum file itself,
+sub-directories, files without the `.sql` suffix — can be added, removed or changed without any effect. -/
+theorem only_migration_files_count (H : Bytes → Bytes) (dir dir' : List DFile) (h : files dir' = files dir) :
+    writeSum H dir' = writeSum H dir ∧ ∀ sum, validate H dir' sum = validate H dir sum := by
+  refine ⟨by unfold writeSum; rw [h], fun sum => ?_⟩
+  unfold validate
+  rw [h]
+
+/-- hence a directory still validates after such entries changed. -/
+theorem validate_after_write_other_entries (H : Bytes → Bytes) (dir dir' : List DFile)
+    (rt : RoundTrip H (newHashFile H (files dir))) (h : files dir' = files dir) :
+    validate H dir' (some (writeSum H dir)) = .ok := by
+  rw [(only_migration_files_count H dir dir' h).2]
+  exact validate_after_write H dir rt
+
 end Props.C06
